@@ -36,6 +36,12 @@ type replayCase struct {
 	// Repeat > 1: run until an assertion fails or the harness panics (outcomes that
 	// depend on Go's randomised map iteration order), at most Repeat times.
 	Repeat int `json:"repeat"`
+	// WantReach / WantObserved (witnesses and sampled paths): what the engine saw on this path.
+	// Which of several equally admissible nodes a rate-limited plan picks follows Go's randomised
+	// map iteration, so the run is repeated (at most Repeat times) until it agrees; a run in
+	// which an assertion fails or the harness panics always ends the repetition and is reported.
+	WantReach    string            `json:"want_reach,omitempty"`
+	WantObserved map[string]string `json:"want_observed,omitempty"`
 }
 
 type replayResult struct {
@@ -259,7 +265,29 @@ func RunReplay(t *testing.T, harnesses map[string]func()) {
 			continue
 		}
 		r := runOne(c, h)
-		for k := 1; k < c.Repeat && len(r.Failed) == 0 && r.Panic == ""; k++ {
+		agrees := func(r *replayResult) bool {
+			if c.WantReach == "" && c.WantObserved == nil {
+				return false // violation / known-finding case: repeat until it fails
+			}
+			if c.WantReach != "" {
+				found := false
+				for _, x := range r.Reached {
+					if x == c.WantReach {
+						found = true
+					}
+				}
+				if !found {
+					return false
+				}
+			}
+			for k, v := range c.WantObserved {
+				if r.Observed[k] != v {
+					return false
+				}
+			}
+			return r.WallClockOK && !r.AssumeFail && len(r.TapeMisses) == 0
+		}
+		for k := 1; k < c.Repeat && len(r.Failed) == 0 && r.Panic == "" && !agrees(r); k++ {
 			r = runOne(c, h)
 			r.Attempts = k + 1
 		}
